@@ -12,6 +12,7 @@ import (
 	"github.com/youchainhq/go-youchain/common"
 	"github.com/youchainhq/go-youchain/core"
 	"github.com/youchainhq/go-youchain/core/state"
+	"github.com/youchainhq/go-youchain/params"
 	"github.com/youchainhq/go-youchain/staking"
 )
 
@@ -51,14 +52,18 @@ func PostEvidence(n *env.Node, ev staking.Evidence) {
 	n.Mux.Post(core.InsertBlockEvent{})
 }
 
-// RandomEvidenceTargets occasionally accuses a non-anchor validator whose 2 % penalty is positive.
+// RandomEvidenceTargets occasionally (about every 10th block after block 20) accuses a non-anchor
+// validator whose 2 % penalty is positive. Two times out of three it prefers a validator whose
+// penalty would be covered completely by its own unfinished withdraw records (takePenalty takes from
+// those first) and whose delegators owe nothing: then the validator's token does not move at all and
+// only the record, the penalty account and SlashData tell that the evidence was confirmed.
 func RandomEvidenceTargets(r *Run, st *state.StateDB, n uint64) []common.Address {
-	if n < 20 || r.R.Intn(24) != 0 {
+	if n < 20 || r.R.Intn(10) != 0 {
 		return nil
 	}
-	v := r.W.pickVal(st, func(v *state.Validator) bool {
+	eligible := func(v *state.Validator) bool {
 		pen := new(big.Int).Mul(v.Token, big.NewInt(2))
-		if r.W.isAnchor(v) || r.W.ValIndex(v.MainAddress()) < 0 || pen.Cmp(big.NewInt(100)) < 0 {
+		if r.W.isAnchor(v) || r.W.ValIndex(v.MainAddress()) < 0 || pen.Cmp(big.NewInt(100)) < 0 || v.Expelled {
 			return false
 		}
 		// most chains accuse only validators with at least one unit of self stake: the penalty is then
@@ -66,16 +71,50 @@ func RandomEvidenceTargets(r *Run, st *state.StateDB, n uint64) []common.Address
 		// ways (stake 0: division by zero; nothing collectable: builder expels without SlashData), so
 		// only the reckless chains do it.
 		return r.Sc.RecklessEvidence || v.SelfStake.Sign() > 0
-	})
+	}
+	var v *state.Validator
+	if r.R.Intn(3) != 0 {
+		// unfinished self-withdraw balance per validator
+		pendingOut := map[common.Address]*big.Int{}
+		for _, rec := range st.GetWithdrawQueue().Records {
+			if rec.Finished == 0 && rec.Delegator == (common.Address{}) {
+				if pendingOut[rec.Validator] == nil {
+					pendingOut[rec.Validator] = new(big.Int)
+				}
+				pendingOut[rec.Validator].Add(pendingOut[rec.Validator], rec.FinalBalance)
+			}
+		}
+		v = r.W.pickVal(st, func(v *state.Validator) bool {
+			out := pendingOut[v.MainAddress()]
+			if !eligible(v) || out == nil {
+				return false
+			}
+			pen := new(big.Int).Div(new(big.Int).Mul(v.Token, big.NewInt(2)), big.NewInt(100))
+			return out.Cmp(pen) >= 0 && (len(v.Delegations) == 0 || v.RiskObligation == params.CommissionRateBase)
+		})
+		if v != nil {
+			r.C.Count("evidence_targets_with_covering_withdraw_record", 1)
+			r.SigPart("evidence:covered-by-withdraw-record")
+		}
+	}
+	if v == nil {
+		v = r.W.pickVal(st, eligible)
+	}
 	if v == nil {
 		return nil
 	}
 	return []common.Address{v.MainAddress()}
 }
 
-// EvidenceClass recognises, by observation, the one anticipated cause of a builder/importer
-// divergence: evidence was handed to the builder, the builder changed the accused validator's record,
-// but the header carries no SlashData for an importer to replay.
+// EvidenceClass recognises, by observation, a builder/importer divergence caused by evidence that
+// was handed to the builder, changed the builder's state, but is not in header.SlashData for an
+// importer to replay. Two classes, decided by whether the builder actually took something:
+//
+//	evidence-applied-by-builder-but-absent-from-slashdata  nothing was collectable (total penalty 0):
+//	        the accused validator was only expelled
+//	penalty-applied-by-builder-but-absent-from-slashdata   the validator's token, one of its unfinished
+//	        withdraw records or the penalty account moved: a POSITIVE penalty was taken and still the
+//	        evidence was not recorded as confirmed
 func EvidenceClass(r *Run, b *BlockCtx, extra map[string]interface{}) string {
 	if len(b.EvidenceVals) == 0 || len(b.Block.Header().SlashData) != 0 {
 		return ""
@@ -84,14 +123,44 @@ func EvidenceClass(r *Run, b *BlockCtx, extra map[string]interface{}) string {
 	if err != nil {
 		return ""
 	}
+	post := b.Res.State
+	recKey := func(rec *state.WithdrawRecord) string {
+		return fmt.Sprintf("%x/%d/%x", rec.Operator, rec.Nonce, rec.TxHash)
+	}
 	for _, t := range b.EvidenceVals {
-		before, after := pst.GetValidatorByMainAddr(t), b.Res.State.GetValidatorByMainAddr(t)
-		if before != nil && after != nil && (before.Expelled != after.Expelled || before.ExpelExpired != after.ExpelExpired || before.Status != after.Status) {
-			extra["accused_before"] = mon.ValString(before)
-			extra["accused_after_on_builder"] = mon.ValString(after)
-			extra["header_slashdata"] = "empty"
-			return "evidence-applied-by-builder-but-absent-from-slashdata"
+		before, after := pst.GetValidatorByMainAddr(t), post.GetValidatorByMainAddr(t)
+		if before == nil || after == nil {
+			continue
 		}
+		changed := before.Expelled != after.Expelled || before.ExpelExpired != after.ExpelExpired || before.Status != after.Status
+		var taken []string
+		if after.Token.Cmp(before.Token) < 0 {
+			taken = append(taken, fmt.Sprintf("validator token %v -> %v", before.Token, after.Token))
+		}
+		was := map[string]*big.Int{}
+		for _, rec := range pst.GetWithdrawQueue().Records {
+			if rec.Validator == t {
+				was[recKey(rec)] = rec.FinalBalance
+			}
+		}
+		for _, rec := range post.GetWithdrawQueue().Records {
+			if old := was[recKey(rec)]; rec.Validator == t && old != nil && rec.FinalBalance.Cmp(old) < 0 {
+				taken = append(taken, fmt.Sprintf("withdraw record (nonce %d) FinalBalance %v -> %v", rec.Nonce, old, rec.FinalBalance))
+			}
+		}
+		if !changed && len(taken) == 0 {
+			continue
+		}
+		extra["accused_before"] = mon.ValString(before)
+		extra["accused_after_on_builder"] = mon.ValString(after)
+		extra["header_slashdata"] = "empty"
+		pa := r.W.YP.PenaltyTo
+		extra["penalty_account_on_builder"] = fmt.Sprintf("%v -> %v", pst.GetBalance(pa), post.GetBalance(pa))
+		if len(taken) > 0 {
+			extra["taken_by_builder"] = taken
+			return "penalty-applied-by-builder-but-absent-from-slashdata"
+		}
+		return "evidence-applied-by-builder-but-absent-from-slashdata"
 	}
 	return ""
 }
